@@ -35,3 +35,91 @@ def find_ephemerals_by_public_x(r, first_byte, want=2, max_tries=4000):
             if len(out) >= want:
                 break
     return out
+
+
+# ---- curve points with a SMALL coordinate (pure integer arithmetic on the P-256 equation; nothing from the library)
+def _polymulmod(a, b, f, p):
+    """(a * b) mod f over F_p; a, b of degree <= 2 (lists low->high), f monic cubic [f0, f1, f2, 1]"""
+    prod = [0] * 5
+    for i, ai in enumerate(a):
+        for j, bj in enumerate(b):
+            prod[i + j] = (prod[i + j] + ai * bj) % p
+    for d in (4, 3):
+        c = prod[d]
+        if c:
+            for k in range(3):
+                prod[d - 3 + k] = (prod[d - 3 + k] - c * f[k]) % p
+            prod[d] = 0
+    return prod[:3]
+
+
+def _cubic_roots(f, p):
+    """roots in F_p of the monic cubic f (p = 3 mod 4): gcd(x^p - x, f) and the quadratic formula"""
+    # x^p mod f
+    result, base, e = [1, 0, 0], [0, 1, 0], p
+    while e:
+        if e & 1:
+            result = _polymulmod(result, base, f, p)
+        base = _polymulmod(base, base, f, p)
+        e >>= 1
+    g = [(result[0]) % p, (result[1] - 1) % p, result[2] % p]          # x^p - x  (mod f)
+    # Euclid on (f, g)
+    def deg(a):
+        while a and a[-1] % p == 0:
+            a = a[:-1]
+        return a
+    a, b = deg(list(f)), deg(g)
+    while b:
+        inv = pow(b[-1], -1, p)
+        while len(a) >= len(b) and a:
+            c = a[-1] * inv % p
+            s = len(a) - len(b)
+            for k in range(len(b)):
+                a[s + k] = (a[s + k] - c * b[k]) % p
+            a = deg(a)
+        a, b = b, a
+    a = deg(a)
+    if not a or len(a) == 1:
+        return []
+    inv = pow(a[-1], -1, p)
+    a = [c * inv % p for c in a]
+    if len(a) == 2:
+        return [(-a[0]) % p]
+    if len(a) == 3:
+        disc = (a[1] * a[1] - 4 * a[0]) % p
+        s = pow(disc, (p + 1) // 4, p)
+        if s * s % p != disc:
+            return []
+        i2 = pow(2, -1, p)
+        return [(-a[1] + s) * i2 % p, (-a[1] - s) * i2 % p]
+    return []                                                     # three roots: take none (rare), the caller tries another value
+
+
+def p256_points_with_small_y(r, want=2, bound_bits=200, max_tries=200):
+    """points (x, y) on P-256 with y < 2^bound_bits: then y + p still fits in 32 bytes - a NON-canonical encoding of Y"""
+    from .oracle_openssl import P256_P as p, P256_B as b
+    out = []
+    for _ in range(max_tries):
+        y = r.randrange(1, 1 << bound_bits)
+        f = [(b - y * y) % p, (-3) % p, 0, 1]                      # x^3 - 3x + b - y^2
+        for x in _cubic_roots(f, p):
+            if (x * x * x - 3 * x + b - y * y) % p == 0:
+                out.append((x, y))
+                break
+        if len(out) >= want:
+            break
+    return out
+
+
+def p256_points_with_small_x(r, want=2, bound_bits=200, max_tries=400):
+    from .oracle_openssl import P256_P as p, P256_B as b
+    out = []
+    for _ in range(max_tries):
+        x = r.randrange(1, 1 << bound_bits)
+        rhs = (x * x * x - 3 * x + b) % p
+        y = pow(rhs, (p + 1) // 4, p)
+        if y * y % p == rhs:
+            out.append((x, y))
+            if len(out) >= want:
+                break
+    return out
